@@ -9,6 +9,10 @@
      cast <t> <ta> <va>             -> c2m <t> <v>           c11 <t> <v>
      cond <tc> <vc> <ta> <va> <tb> <vb>
      land|lor <ta> <va> <tb> <vb>
+     bf <ubits> <usigned 0|1> <boff> <bwid> <bsigned 0|1> <bool 0|1> <unit> <value>
+                                    -> bf <new unit> <assignment value> <read back> <c11 conversion> | bf illformed
+     bfcode <ubits> <usigned> <boff> <bwid> <bsigned>
+                                    -> store: <insn>|<insn>... ; result rN ; load: <insn>|...
    A leading word "old" selects the pre-fix model (q_conv_old, q_boolcast). *)
 open C07x
 
@@ -76,6 +80,19 @@ let binop = function
   | ">" -> CGt | ">=" -> CGe | s -> failwith ("binop " ^ s)
 let unop = function "+" -> CPlus | "-" -> CNeg | "~" -> CBnot | "!" -> CLnot | s -> failwith ("unop " ^ s)
 
+let rec int_of_nat = function O -> 0 | S n -> 1 + int_of_nat n
+let dec_of_z z =   (* decimal text of a non-negative z < 2^64, as c2m -S prints immediates *)
+  let h = hex_of_z z in
+  if String.length h > 0 && h.[0] = '-' then "-" ^ h else Printf.sprintf "%Lu" (Int64.of_string ("0x" ^ h))
+let bfield s us o w sg = { ubits = z_of_hex s; usigned = (us = "1"); boff = z_of_hex o; bwid = z_of_hex w; bsigned = (sg = "1") }
+let opnd = function R n -> Printf.sprintf "r%d" (int_of_nat n) | Imm z -> dec_of_z z | Val -> "val"
+let opname = function OAnd -> "and" | OOr -> "or" | OLsh -> "lsh" | ORsh -> "rsh" | OUrsh -> "ursh"
+let insn_text = function
+  | ILoad d -> Printf.sprintf "mov r%d unit" (int_of_nat d)
+  | IMov (d, a) -> Printf.sprintf "mov r%d %s" (int_of_nat d) (opnd a)
+  | IBin (o, d, a, b) -> Printf.sprintf "%s r%d %s %s" (opname o) (int_of_nat d) (opnd a) (opnd b)
+  | IBinSt (o, a, b) -> Printf.sprintf "%s unit %s %s" (opname o) (opnd a) (opnd b)
+
 let cv t v = { ct = ty t; cv = z_of_hex v }
 let show c = Printf.sprintf "%s %s" (tn c.ct) (hex_of_z c.cv)
 
@@ -120,6 +137,19 @@ let () =
         | ["lor"; ta; va; tb; vb] ->
           let a = cv ta va and b = cv tb vb in
           Printf.sprintf "c2m %s c11 %s" (show (fold_oror old a b)) (show (rt_oror a b))
+        | ["bf"; s; us; o; w; sg; bl; u; v] ->
+          let f = bfield s us o w sg in
+          if not (wf_bf f) then "bf illformed" else begin
+            let v = z_of_hex v in
+            let v = if bl = "1" then m_ne0 v else v in
+            let (nu, av) = bf_store f (z_of_hex u) v in
+            Printf.sprintf "bf %s %s %s %s" (hex_of_z nu) (hex_of_z av) (hex_of_z (bf_load f nu)) (hex_of_z (c11_conv_bf f v))
+          end
+        | ["bfcode"; s; us; o; w; sg] ->
+          let f = bfield s us o w sg in
+          Printf.sprintf "store: %s ; result r%d ; load: %s"
+            (String.concat "|" (List.map insn_text (store_code f))) (int_of_nat (store_result f))
+            (String.concat "|" (List.map insn_text (load_code f)))
         | w :: _ -> failwith ("bad query " ^ w) in
       print_endline out
     done
